@@ -102,6 +102,9 @@ def floors(tier):
         "B:kind:dehb_geometric": 100 * k,
         "B:dehb_first_bracket_promotions": 100 * k,
         "B:dehb_first_bracket_promotions_as_new_trial": 50 * k,
+        "B:schedules_with_infinite_metric_values": 150 * k,
+        "B:slots_failed_for_lack_of_configurations": 20 * k,
+        "B:promotions_after_space_ran_dry": 5 * k,
     }
 
 
@@ -257,6 +260,14 @@ def expand_b(spec):
     p["support_pause_resume"] = rng.random() < 0.7
     p["fail_rate"] = rng.choice([0.0, 0.0, 0.1, 0.3])
     p["space"] = gen.small_space(rng, ensure_infinite=True, ordinal_kinds=("equal",))
+    # diverged trainings: some trials report +inf / -inf (legal metric values: they rank last / first, they are not failures)
+    p["inf_frac"] = rng.choice([0.0, 0.0, 0.1, 0.3])
+    if p["kind"].startswith("sync") and rng.random() < 0.2:
+        # a finite space that runs dry while a rung is only partly filled: the slot that cannot be filled counts as failed,
+        # the trials already started go on and the best of them are promoted (the experiment is continued after the None)
+        p["space"] = gen.small_space(rng, finite=True, ordinal_kinds=("equal",))
+        p["suggest_after_none"] = rng.randint(2, 12)
+        p["fail_rate"] = 0.0
     p.update({k: v for k, v in spec.items() if k not in ("seed", "engine") and not k.startswith("_")})
     return p
 
@@ -311,6 +322,20 @@ class MonitorB:
 
     def post_suggest(self, vt, next_id, sugg, t):
         o, p = self.o, self.p
+        if sugg is None and p.get("suggest_after_none"):
+            # finite space used up: legitimate. The slot handed out by next_job for this request cannot be filled and counts as
+            # failed (documented in _suggest: 'the slot is reported as failed'), so that its rung can still complete.
+            o.count("B:none_on_finite_space")
+            if len(self.joblog) == 1:
+                b, slot = self.joblog[0]
+                key = self.val.on_job(b, slot["rung_index"], slot["level"], slot["slot_index"], slot["trial_id"])
+                self._flush()
+                if key is not None:
+                    before = self.val.stats["rung_completions"]
+                    self.val.on_result(key, None, float("nan"))
+                    o.count("B:slots_failed_for_lack_of_configurations")
+                    self._after_result(b, slot["rung_index"], before)
+            return
         if sugg is None:
             ctx = "after_failed_slot" if self.val.stats["failed_slots"] > 0 else "no_failure_before"
             o.violate("never_blocks", f"{'dehb' if self.dehb else 'sync'}:suggest_returned_None_on_infinite_space:{ctx}{self.sfx}", {"next_id": next_id})
@@ -331,6 +356,8 @@ class MonitorB:
             return
         resume = not sugg.spawn_new_trial_id
         self.sig.append((b, slot["rung_index"], "R" if resume else "S"))
+        if resume and getattr(vt, "none_seen", 0) > 0:
+            o.count("B:promotions_after_space_ran_dry")
         if not self.dehb:
             if resume != (slot["trial_id"] is not None):
                 o.violate("promotion_is_resume", "suggestion_kind_disagrees_with_job", {"resume": resume, "job_trial": slot["trial_id"]})
@@ -467,7 +494,18 @@ def run_engine_b(spec, o):
             return orig_res(result)
 
         mgr.on_result = on_result
-    curves = gen.Curves(p["curves"], spec["seed"] + 1, p["max_level"])
+    base_curves = gen.Curves(p["curves"], spec["seed"] + 1, p["max_level"])
+    curves = base_curves
+    if p.get("inf_frac"):
+        inf_seed = spec["seed"] * 13 + 5
+
+        def curves(tid, level, cfg=None, _f=p["inf_frac"]):
+            rr = random.Random(inf_seed + tid * 7919)
+            if rr.random() < _f:
+                return rr.choice([float("inf"), float("-inf")])
+            return base_curves(tid, level, cfg)
+
+        o.count("B:schedules_with_infinite_metric_values")
     mon = MonitorB(o, p, sched, val, joblog)
     mon.slot_results = slot_results
     rng = random.Random(spec["seed"] + 3)
@@ -479,7 +517,7 @@ def run_engine_b(spec, o):
     vp = {"n_workers": p["n_workers"], "max_t": p["max_level"], "metric": "loss", "resource_attr": "epoch",
           "policy": p["policy"], "seed": spec["seed"] + 2, "max_events": p["max_events"],
           "max_resource_attr": "epochs" if p["use_mra"] else None, "checkpointing": p["checkpointing"],
-          "fail": fail, "order": p.get("order"), "pbt_restart_levels": True}
+          "fail": fail, "order": p.get("order"), "pbt_restart_levels": True, "suggest_after_none": p.get("suggest_after_none", 0)}
     vt = VTuner(Port(sched, step_budget=spec.get("_stepbudget")), vp, curves, monitors=[mon]).run()
     mon._flush()
     fam = "dehb" if dehb else "sync"
